@@ -119,9 +119,12 @@ def parse_source(src, crate, module, defs):
         # attributes preceding the item (for rename_all)
         pre = src[max(0, m.start() - 400):m.start()]
         td = TypeDef(crate, module, name, kind)
-        rm = re.findall(r'rename_all\s*=\s*"(\w+)"', pre.split(';')[-1].split('}')[-1])
+        tail = pre.split(';')[-1].split('}')[-1]
+        rm = re.findall(r'rename_all\s*=\s*"(\w+)"', tail)
         if rm:
             td.rename_all = rm[-1]
+        elif 'cw_serde' in tail:
+            td.rename_all = 'snake_case'        # #[cw_serde] = serde(rename_all = "snake_case", deny_unknown_fields)
         if opener == ';':
             defs.append(td)
             continue
